@@ -134,9 +134,10 @@ def get_type_graph(t: type) -> graphlib.TopologicalSorter[TypeNode]:
             # If no type was provided, there's no reason to do further processing.
             if child in (constants.empty, typing.Any):
                 continue
-            # The hint of a field may arrive as a reference (a string annotation taken
-            #   from the signature of the class): it names a type like any other hint.
-            if var is not None and type(child) is typing.ForwardRef:
+            # A member may arrive as a reference (a string annotation taken from the
+            #   signature of a class, a `ForwardRef` argument of a generic): it names a
+            #   type like any other annotation does.
+            if type(child) is typing.ForwardRef:
                 child = _evaluated(child)
 
             unwrapped = inspection.unwrap(child)
